@@ -37,7 +37,7 @@ def run(ctx):
     # one funding run whose input count crosses 65535/65536 (a 21 MB event: validated on its own)
     big = B.run_driver(ctx, "fund", 0, None, extra=["-huge"])
     off = len(events)
-    rejects += [(off + i, why) for i, why in vf.validate_events(ctx, "Trace_Builder.tla", "Trace_Builder.cfg", big, shards=1, heap="12g")]
+    rejects += [(off + i, why) for i, why in vf.validate_events(ctx, "Trace_Builder.tla", "Trace_Builder.cfg", big, shards=1, heap="4g")]
     events += big
     handle(ctx, events, rejects)
     fe = [e for e in events if e["ev"] == "fund"]
